@@ -1,7 +1,7 @@
-(* Float arrays: validate_many only converts Python's max and min.  When the FIRST element is not NaN those
-   are true bounds, so an element whose magnitude is too large is always caught; from this follow the two
-   obligations left open by Proofs/ValuesProofs.v (no element store can fail once validation passed) and
-   Proofs/RefuseProofs.v (out-of-domain floats are refused).  Uses the Flocq-based facts of Proofs/FloatProofs.v. *)
+(* Floats: a number whose magnitude reaches the overflow threshold cannot be converted quietly ([conv_big]);
+   validate_many converts every element, so the two obligations left open by Proofs/ValuesProofs.v (no element
+   store can fail once validation passed) and Proofs/RefuseProofs.v (out-of-domain floats are refused at every
+   position) follow.  Uses the Flocq-based facts of Proofs/FloatProofs.v. *)
 From Coq Require Import ZArith List Bool Lia ZifyBool Arith.
 From Val Require Import Gen.ValidatorTbl Model.Bytes Model.Floats Model.Values Spec.ValSpec
   Proofs.BytesProofs Proofs.ValuesProofs Proofs.RefuseProofs Proofs.XnumProofs Proofs.FloatProofs.
@@ -12,17 +12,10 @@ Lemma T32z_pos : 0 < T32z. Proof. reflexivity. Qed.
 Lemma thr64_pos : 0 < int_overflow_threshold. Proof. reflexivity. Qed.
 Lemma T32z_lt_thr64 : T32z < int_overflow_threshold. Proof. reflexivity. Qed.
 
-Lemma is_nan_val_nn : forall v, is_num v = true -> (is_nan_val v = false <-> nn v).
+Lemma f64_nn : forall b, f64_is_nan b = false -> xis_nan (xnum_of_f64 b) = false.
 Proof.
-  intros v Hv. unfold nn. destruct v; try discriminate; cbn [is_nan_val xnum_of xnum_of_int xis_nan]; try tauto.
-  - destruct (xnum_of_f64 bits) eqn:E; cbn [xis_nan].
-    + apply xnum_of_f64_nan in E. split; congruence.
-    + split; auto. intros _. destruct (f64_is_nan bits) eqn:En; auto. apply xnum_of_f64_nan in En. congruence.
-    + split; auto. intros _. destruct (f64_is_nan bits) eqn:En; auto. apply xnum_of_f64_nan in En. congruence.
-  - destruct (xnum_of_f64 bits) eqn:E; cbn [xis_nan].
-    + apply xnum_of_f64_nan in E. split; congruence.
-    + split; auto. intros _. destruct (f64_is_nan bits) eqn:En; auto. apply xnum_of_f64_nan in En. congruence.
-    + split; auto. intros _. destruct (f64_is_nan bits) eqn:En; auto. apply xnum_of_f64_nan in En. congruence.
+  intros b Hn. destruct (xnum_of_f64 b) eqn:E; try reflexivity.
+  apply xnum_of_f64_nan in E. congruence.
 Qed.
 
 (* "t is a bound that this field cannot hold": the binary32 threshold for c_float, the int->double one always *)
@@ -85,55 +78,30 @@ Proof.
   - rewrite (Hfloat bits eq_refl). discriminate.
 Qed.
 
-(* validate_many catches a too-large element wherever it is, provided the first element is not NaN *)
-Lemma big_item_refused : forall ct t x r y, fct_ok ct = true -> big_for ct t -> 0 < t ->
-  forallb is_num (x :: r) = true -> is_nan_val x = false ->
-  In y (x :: r) -> nn y -> xabs_ge (xnum_of y) t = true ->
-  float_validate_many ct (x :: r) <> None.
+(* validate_many converts and tests every element *)
+Lemma validate_many_all : forall ct items y, float_validate_many ct items = None -> In y items ->
+  float_isinf_conv (snd ct) y = inr false.
 Proof.
-  intros ct t x r y Hct Hbig Ht Hnum Hx Hin Hny Hge. unfold float_validate_many. rewrite Hnum. cbn [negb].
-  assert (Hnumx : is_num x = true) by (cbn [forallb] in Hnum; lia).
-  assert (Hnx : nn x) by (now apply is_nan_val_nn).
-  destruct (pymax_ub r x Hnx) as (HnM & HinM & HubM).
-  destruct (pymin_lb r x Hnx) as (HnN & HinN & HlbN).
-  rewrite forallb_forall in Hnum.
-  unfold xabs_ge in Hge. apply orb_true_iff in Hge as [Hge|Hge]; apply negb_true_iff in Hge.
-  - (* y >= t : the max is >= t *)
-    assert (HM : xlt (xnum_of (pymax x r)) (XFin t 0) = false).
-    { destruct (xlt (xnum_of (pymax x r)) (XFin t 0)) eqn:E; [|reflexivity].
-      destruct (xlt_negtrans _ _ (xnum_of y) E Hny) as [H|H]; [|congruence].
-      rewrite (HubM y Hin Hny) in H. discriminate. }
-    pose proof (conv_big ct t (pymax x r) Hct Hbig (Hnum _ HinM) HnM (or_introl HM)) as Hc.
-    destruct (float_isinf_conv (snd ct) (pymax x r)) as [e|[|]]; try discriminate. congruence.
-  - (* y <= -t : the min is <= -t *)
-    assert (HN : xlt (XFin (- t) 0) (xnum_of (pymin x r)) = false).
-    { destruct (xlt (XFin (- t) 0) (xnum_of (pymin x r))) eqn:E; [|reflexivity].
-      destruct (xlt_negtrans _ _ (xnum_of y) E Hny) as [H|H]; [congruence|].
-      rewrite (HlbN y Hin Hny) in H. discriminate. }
-    pose proof (conv_big ct t (pymin x r) Hct Hbig (Hnum _ HinN) HnN (or_intror HN)) as Hc.
-    destruct (float_isinf_conv (snd ct) (pymax x r)) as [e|[|]]; try discriminate.
-    destruct (float_isinf_conv (snd ct) (pymin x r)) as [e|[|]]; try discriminate. congruence.
+  induction items as [|x r IH]; intros y Hv Hin; [contradiction|]. cbn [float_validate_many] in Hv.
+  destruct (float_isinf_conv (snd ct) x) as [e|[|]] eqn:E; try discriminate.
+  destruct Hin as [<-|Hin]; [exact E|now apply IH].
 Qed.
 
-(* ---- obligation of Proofs/ValuesProofs.v ---- *)
+Lemma validate_many_raises : forall ct items y, In y items -> float_isinf_conv (snd ct) y <> inr false ->
+  float_validate_many ct items <> None.
+Proof.
+  intros ct items y Hin Hy Hn. apply Hy. eapply validate_many_all; eauto.
+Qed.
+
+(* ---- obligation of Proofs/ValuesProofs.v: once validation passed, no element store can fail ---- *)
 Theorem float_items_ok : float_items_ok_stmt.
 Proof.
-  intros ct items Hct Hv Hhd.
-  assert (Hnum : forallb is_num items = true).
-  { unfold float_validate_many in Hv. destruct (forallb is_num items); [reflexivity|discriminate]. }
-  destruct items as [|x r]; [constructor|].
-  apply Forall_forall. intros y Hin. pose proof Hnum as Hnum'. rewrite forallb_forall in Hnum'.
-  specialize (Hnum' y Hin). unfold fct_ok in Hct. unfold store_ok, cstore.
-  replace (fst ct <=? 1) with false by lia. replace (fst ct =? 2) with true by lia.
-  destruct y; try discriminate Hnum'; cbn [num_to_f64]; try (eexists; reflexivity).
-  - destruct (int_to_f64 z) as [b|] eqn:Ei; [eexists; reflexivity|]. exfalso.
-    unfold int_to_f64 in Ei. destruct (int_overflow_threshold <=? Z.abs z) eqn:E; [|discriminate].
-    assert (Hge : xabs_ge (xnum_of (PInt z)) int_overflow_threshold = true).
-    { cbn [xnum_of]. unfold xnum_of_int. rewrite xabs_ge_int. lia. }
-    assert (Hbig : big_for ct int_overflow_threshold) by (now right).
-    assert (Hnn : nn (PInt z)) by reflexivity.
-    exact (big_item_refused ct int_overflow_threshold x r (PInt z) Hct Hbig thr64_pos Hnum Hhd Hin Hnn Hge Hv).
-  - destruct b; cbn [Z.b2z]; (destruct (int_to_f64 _) eqn:Ei; [eexists; reflexivity|]); vm_compute in Ei; discriminate.
+  intros ct items Hct Hv. apply Forall_forall. intros y Hin.
+  pose proof (validate_many_all ct items y Hv Hin) as Hc. unfold fct_ok in Hct.
+  unfold float_isinf_conv in Hc. destruct (num_to_f64 y) as [e|b] eqn:En; [discriminate|].
+  unfold store_ok, cstore.
+  destruct y; try (cbn [num_to_f64] in En; discriminate);
+    replace (fst ct <=? 1) with false by lia; replace (fst ct =? 2) with true by lia; rewrite En; eexists; reflexivity.
 Qed.
 
 (* ---- obligations of Proofs/RefuseProofs.v ---- *)
@@ -154,7 +122,7 @@ Proof.
       cbn [xnum_of]. unfold xnum_of_int. rewrite xabs_ge_int. lia.
   - exists T32z. split; [left; lia|]. split; [reflexivity|].
     assert (Hn : f64_is_nan bits = false) by lia. split.
-    + apply is_nan_val_nn; [reflexivity|exact Hn].
+    + unfold nn. cbn [xnum_of]. now apply f64_nn.
     + cbn [xnum_of]. lia.
   - discriminate.
 Qed.
@@ -174,16 +142,15 @@ Proof.
 Qed.
 
 Theorem float_many_refuse : forall ct items, fct_ok ct = true ->
-  match items with x :: _ => is_nan_val x = false | [] => True end ->
   existsb (ood_float ct) items = true -> float_validate_many ct items <> None.
 Proof.
-  intros ct items Hct Hhd Hex. apply existsb_exists in Hex as (y & Hin & Hy).
-  destruct (forallb is_num items) eqn:Hnum.
-  2:{ unfold float_validate_many. rewrite Hnum. discriminate. }
-  destruct items as [|x r]; [contradiction|].
-  pose proof Hnum as Hnum'. rewrite forallb_forall in Hnum'.
-  destruct (ood_float_big ct y Hct Hy (Hnum' y Hin)) as (t & Hbig & Ht & Hnn & Hge).
-  eapply big_item_refused; eauto.
+  intros ct items Hct Hex. apply existsb_exists in Hex as (y & Hin & Hy).
+  apply (validate_many_raises ct items y Hin).
+  destruct (is_num y) eqn:Hnum.
+  - destruct (ood_float_big ct y Hct Hy Hnum) as (t & Hbig & Ht & Hnn & Hge).
+    apply (conv_big ct t y Hct Hbig Hnum Hnn). unfold xabs_ge in Hge.
+    apply orb_true_iff in Hge as [Hg|Hg]; apply negb_true_iff in Hg; auto.
+  - unfold float_isinf_conv, num_to_f64. destruct y; try discriminate Hnum; discriminate.
 Qed.
 
 (* ---- the C09 theorems with the float obligations discharged ---- *)
